@@ -407,6 +407,12 @@ fn c12(seed: u64, tier: &str, thorough: bool) -> CheckPlan {
             jobs.push(job("C12", "text", derive(seed, &label, 0), tier, json!({"label": label, "text": text, "envs": if thorough { envs } else { 2 }})));
         }
     }
+    for (label, text) in crate::checks::c12::degenerate_texts().into_iter().chain(crate::checks::c12::halfbound_error_texts().into_iter()) {
+        jobs.push(job("C12", "text", derive(seed, &label, 0), tier, json!({"label": label, "text": text, "envs": if thorough { envs } else { 2 }})));
+    }
+    for (label, text) in crate::checks::c12::shape_texts(thorough) {
+        jobs.push(job("C12", "text", derive(seed, &label, 0), tier, json!({"label": label, "text": text, "envs": 2})));
+    }
     for (label, text) in crate::checks::c12::book_examples() {
         jobs.push(job("C12", "text", derive(seed, &label, 0), tier, json!({"label": label, "text": text, "envs": envs})));
     }
